@@ -47,6 +47,12 @@ CLAIMED = {
              note="Exhaustive up to 6 (7) operations in the model, 3 (4) on real objects; random histories of 6..16 operations beyond. Trusted: TLC, the JSON exchange.",
              technique="TLA+ model checking (TLC) of MC_Auto.tla + spec-to-code replay + TLC trace validation", design="5.17"),
  "C20": pk("MC_Values over U_C20 (declarations with at/shift/aligned, the class-wide align option, Em, a described field, nested packets, lists, optionals, run-time selected references): p is built from K, q like p with exactly one field re-assigned (every field, every domain value, in place for default-constructed mutable values) or none; on real objects ==, !=, comparison with itself / None / another class, repr; two packets parsed from the same bytes; a parsed packet against a constructed, never-packed one; TLC (Trace_Values) evaluates C20_Total / C20_Structural / C20_ParsedEqual on the recorded visible values and results.", "5.20"),
+ "C13": dict(text="Session.tla / MC_Session.tla: up to 2 (3) live packets of related classes (shared sub-packet class, list defaults, a prototype with its own defaults; a regex-delimited body; a selector expression), histories of New / Unpack / SetAttr / append-in-place / assign-into-nested / Pack performed by the Packet.tla machines, with the field-object registers as the only state that outlives an operation; TLC checks Prop_C13_Bystander and Prop_C13_PackPure; every maximal history is executed on real, freshly defined classes and after EVERY operation the values and pack() of ALL live packets and the sharing of mutable sub-objects are compared; two threads parsing/serialising their own packets are interleaved at every pair of field boundaries.",
+             note="Exhaustive up to 3-5 operations; threads at field-step granularity (argument: packets of different threads share only field-object registers). Known findings F2 (remembered regex delimiter) and F3 (selector hands out one instance) are named deviations of the model.",
+             technique="TLA+ model checking (TLC) of session histories over the Packet.tla machines + spec-to-code replay + forced thread schedules", design="5.13"),
+ "C18": dict(text="Regexp.tla: Render (the token list the pack_regexp methods of Int, Data and Bits assemble for a pattern packet whose fields are literals or Any) and MatchesPrefix (what re.match decides for it); MC_Regexp: for every flat declaration of U_C18 (every sizing mode, kept regex delimiters, bit runs with fixed low / mixed bits, alphabets of regex metacharacters) x every input that unpacks x every subset of fields fixed to the parsed values, the rendered expression matches the input and every derived candidate that unpacks to a packet equal to the pattern; the real as_regular_expression() is built for every case (must not fail), its match() compared with the specification's matcher, and soundness evaluated on the code itself (unpack() == pattern implies match; filter() with and without the pre-filter agree).",
+             note="Flat declarations over Int/Bits/Data only (other field kinds have no pack_regexp); regex delimiters from the modelled library. Known finding F9c (== on an Any-valued field inside a size expression) is a named deviation.",
+             technique="TLA+ model checking (TLC) of the regexp renderer and matcher + spec-to-code replay against the real re engine", design="5.18"),
 }
 
 NOT_YET = {}
